@@ -37,19 +37,21 @@ L = {
     "l2": "%%\nb 'b'\na 'a'\n[ \\t]+ ;\n",
     "lbad": "%%\na 'a\n",
     "lmiss": "%%\na 'a'\n[ ]+ ;\n",
+    "lextra": "%%\na 'a'\nb 'b'\nz 'z'\n[ ]+ ;\n",
 }
-LNAMES = {"l1": ["a", "b"], "l2": ["a", "b"], "lbad": [], "lmiss": ["a"]}
+LNAMES = {"l1": ["a", "b"], "l2": ["a", "b"], "lbad": [], "lmiss": ["a"], "lextra": ["a", "b", "z"]}
 
 OPTS0 = dict(yacckind="original_generic", recoverer="cpctplus", sformat="variable", eoc=True, wae=False, showw=False,
              vis="private", edition="2021", mod_name="unset", lex_vis="private", lex_mod_name="unset", case_insensitive=False,
-             dot_matches_new_line=True)
+             dot_matches_new_line=True, lex_wae=False)
 ALT = dict(yacckind="original_noaction", recoverer="none", sformat="fixed", eoc=False, wae=True, showw=True, vis="public",
            edition="2018", mod_name="pm", lex_vis="public", lex_mod_name="lm", case_insensitive=True, dot_matches_new_line=False)
 # every value a setting can take; each ordered pair of values is exercised as a change between builds
 VALUES = dict(yacckind=["original_generic", "original_noaction"], recoverer=["cpctplus", "none"], sformat=["variable", "fixed"],
               eoc=[True, False], wae=[False, True], showw=[False, True], vis=["private", "public", "crate", "super"],
               edition=["2021", "2018", "2015"], mod_name=["unset", "pm", "pm2"], lex_vis=["private", "public"],
-              lex_mod_name=["unset", "lm"], case_insensitive=[False, True], dot_matches_new_line=[True, False])
+              lex_mod_name=["unset", "lm"], case_insensitive=[False, True], dot_matches_new_line=[True, False],
+              lex_wae=[False, True])
 BASE = 1_700_000_000
 
 
@@ -70,7 +72,7 @@ def ginfo(conf):
     for k in G:
         c = conf[k]
         out[k] = dict(valid=c["valid"], warn=(k == "gwarn"), sr=c["sr"], rr=c["rr"], expect=c["expect"], expectrr=c["expectrr"],
-                      tok=tok[k], names=names[k])
+                      tok=tok[k], names=sorted(GTOK[k]))
     return out
 
 
@@ -79,7 +81,7 @@ def linfo():
     byset = {json.dumps(sorted(GTOK[k])): names[k] for k in GTOK}
     out = {}
     for k in L:
-        out[k] = dict(valid=(k != "lbad"), names=byset.get(json.dumps(sorted(LNAMES[k])), 99))
+        out[k] = dict(valid=(k != "lbad"), names=sorted(LNAMES[k]))
     return out
 
 
@@ -124,6 +126,9 @@ def histories(seed, n):
     for v in L:
         hs.append([("build", "both"), ("edit_l", v), ("build", "both"), ("edit_l", "l1"), ("build", "both"), ("build", "both")])
     hs.append([("build", "parser"), ("edit_g", "gbad"), ("edit_l", "lbad"), ("build", "both"), ("edit_l", "l1"), ("build", "both")])
+    # lexer tokens the grammar does not know: a warning, or an error with warnings_are_errors
+    hs.append([("build", "both"), ("edit_l", "lextra"), ("build", "both"), ("set", "lex_wae", True), ("build", "both"), ("edit_l", "l1"), ("build", "both")])
+    hs.append([("set", "lex_wae", True), ("build", "both"), ("edit_g", "g3"), ("edit_l", "lextra"), ("build", "both"), ("build", "both")])
     # the %expect matrix with error_on_conflicts on and off
     for v in ("gconf", "gconfe", "gexp", "gexprr", "grr", "grre", "grre2", "gboth", "gbothe", "gbothrr", "gbothok"):
         hs.append([("edit_g", v), ("build", "parser"), ("set", "eoc", False), ("build", "parser"), ("set", "eoc", True), ("build", "parser")])
